@@ -352,7 +352,7 @@ drv("atbound2", "coords", "def f(theta, phi):\n    coords.atbound2(theta, phi)\n
     exempt={"theta": "in-place helper (wraps its arguments in place, returns None)", "phi": "in-place helper (wraps its arguments in place, returns None)"})
 drv("rect_area", "coords", "def f(lon_min, lon_max, lat_min, lat_max):\n    return coords.rect_area(lon_min, lon_max, lat_min, lat_max)\n",
     {"lon_min": "ra", "lon_max": "ra", "lat_min": "dec", "lat_max": "dec"})
-drv("randcap_brute", "coords", "def f(ra, dec):\n    np.random.seed(5)\n    return coords.randcap_brute(4, ra, dec, 1.5, get_radius=True)\n",
+drv("randcap_brute", "coords", "def f(ra, dec):\n    np.random.seed(5)\n    return coords.randcap_brute(4, ra, dec, 40.0, get_radius=True)\n",
     {"ra": "ra", "dec": "dec"}, nd=(0,), valuation="centre given as 0-d arrays")
 for inv in (False, True):
     drv("wcs_ApplyCDMatrix_inverse%d" % inv, "wcs",
